@@ -384,6 +384,32 @@ pub fn call(wb: &mut Wb, c: &str) -> String {
                 }
             }
         }
+        "everything" => {
+            // every read call on every sheet / table; results are discarded (robustness runs)
+            let names: Vec<String> = each!(wb, x => x.sheet_names());
+            let _ = each!(wb, x => x.sheets_metadata().len());
+            let _ = each!(wb, x => x.defined_names().len());
+            for n in &names {
+                let hn = hexstr(n);
+                for c in ["range", "ref", "formula", "merges"] {
+                    let _ = call(wb, &format!("{} {}", c, hn));
+                }
+            }
+            let _ = call(wb, "wsall");
+            let _ = call(wb, "allmerges");
+            let t = call(wb, "tables");
+            if !t.starts_with("err") && t != "unsupported" {
+                for tn in t.split(',').filter(|s| !s.is_empty()) {
+                    let _ = call(wb, &format!("table {}", tn));
+                }
+            }
+            let _ = call(wb, "vba");
+            let _ = call(wb, "hdr 2");
+            for n in names.iter().take(3) {
+                let _ = call(wb, &format!("range {}", hexstr(n)));
+            }
+            "done".to_string()
+        }
         other => format!("badcall:{}", other),
     }
 }
@@ -411,13 +437,16 @@ pub fn run(args: &[&str]) -> String {
             match r {
                 Ok(s) => out.push(s),
                 Err(_) => {
-                    out.push(
-                        if crate::ALLOC_TRIPPED.load(std::sync::atomic::Ordering::Relaxed) {
-                            "alloc".to_string()
-                        } else {
-                            "panic".to_string()
-                        },
-                    );
+                    let kind = if crate::ALLOC_TRIPPED.load(std::sync::atomic::Ordering::Relaxed) {
+                        "alloc"
+                    } else {
+                        "panic"
+                    };
+                    if crate::verbose_panics() {
+                        out.push(format!("{}\t{}", kind, crate::last_panic()));
+                    } else {
+                        out.push(kind.to_string());
+                    }
                     break;
                 }
             }
